@@ -293,7 +293,9 @@ def rule_prov_assert(crate):
     ids = {lhs["id"]: "lhs", rhs["id"]: "rhs", eps["id"]: "eps"}
     convs = [n for n in walk(fe["body"]) if n.get("k") == "MethodCall" and (callee(n) or "").endswith("Quantity::convert_to")]
     two = [c for c in convs if not (operand_prov(c["args"][0], inits, ids) & {eps["id"]})]
-    three = [c for c in convs if operand_prov(c["args"][0], inits, ids) == {eps["id"]}]
+    # 3-argument form: the comparison unit depends on eps (it is eps's unit unless eps is a polymorphic zero, which
+    # must not determine the unit — then a unit of one of the compared values is used)
+    three = [c for c in convs if eps["id"] in operand_prov(c["args"][0], inits, ids)]
     # 2-argument form: lhs converted to rhs' unit
     ok2 = len(two) == 1 and operand_prov(two[0]["recv"], inits, ids) == {lhs["id"]} and operand_prov(two[0]["args"][0], inits, ids) == {rhs["id"]}
     if ok2:
@@ -337,7 +339,14 @@ def rule_prov_assert(crate):
         out.ok("assert_eq/2:equality", f, fe["line"], "success for quantities is the value of `converted == rhs`")
     else:
         out.violation("assert_eq/2:equality", f, fe["line"], "assert_eq/2: " + why_eq)
-    # 3-argument form
+    # 3-argument form: a zero tolerance is polymorphic (`assert_eq(1 m, 1 m, 0)` type-checks) and carries the scalar
+    # unit at run time: the comparison unit must not be taken from a zero eps
+    zero_tests = [n for n in walk(fe["body"]) if n.get("k") == "MethodCall" and n["name"] == "is_zero" and operand_prov(n["recv"], inits, ids) == {eps["id"]}]
+    only_eps = three and all(operand_prov(c["args"][0], inits, ids) == {eps["id"]} for c in three)
+    if three and (zero_tests or not only_eps):
+        out.ok("assert_eq/3:zero-tolerance", f, fe["line"], "a zero tolerance does not determine the comparison unit")
+    elif three:
+        out.violation("assert_eq/3:zero-tolerance", f, fe["line"], "assert_eq(a, b, eps) converts a and b into eps's unit unconditionally: with the polymorphic literal `0` as tolerance (`assert_eq(1 m, 1 m, 0)` type-checks) eps carries the scalar unit and the conversion fails at run time")
     recvs = [operand_prov(c["recv"], inits, ids) for c in three]
     if len(three) == 2 and {frozenset(r) for r in recvs} == {frozenset({lhs["id"]}), frozenset({rhs["id"]})}:
         out.ok("assert_eq/3:conversion", *crate.loc(fe, three[0]), detail="both values are converted to the unit of eps")
